@@ -55,6 +55,17 @@ theorem c10_decode_total {E : Env} (hE : EnvOK E) (st : Bool) (k : Nat) (s : Sch
         · simp
     · rename_i e h1; have := (takeN_error h1).1; subst this; simp
   | uslice s _ => simp [Sch.guarded] at hg
+  | aslice s ih =>
+    simp only [Sch.guarded] at hg
+    simp only [decG]
+    split
+    · simp only [okList]
+      split
+      · simp
+      · rename_i e h2; intro h; injection h with h; subst h
+        obtain ⟨bs', hb⟩ := decRep_error h2
+        exact ih hg _ hb
+    · rename_i e h1; have := (readU64_error h1).1; subst this; simp
   | ext n => exact (hE n).no_panic hg st k bs
 
 /-- the guard is necessary: the unguarded `make([]byte, n)` of rhp/v2 `RPCReadResponse`
@@ -70,21 +81,18 @@ theorem c10_unguarded_panics (E : Env) (k : Nat) (n : Nat) (hn : E.lim < n) (hn2
 example : Sch.guarded Env.default C11.exS = true := by decide
 example : dec Env.default 0 C11.exS [1, 2, 255,255,255,255,255,255,255,255] = .error .invalid := rfl
 
-/-- **refuted for rhp/v2 `RPCReadResponse`** (mirrored model, 16-byte witness: an empty
-signature and `dataLen = 2^63`): `c10_decode_total` cannot hold for this decoder.
-The witness is replayed on the Go code by the C10D harness
-(`c10-decode-panic:rhp2.RPCReadResponse`). -/
-theorem c10_rhp2_readresponse_panics :
-    Sch.guarded Env.default Irregular.rhp2ReadResponse = false ∧
-    dec Env.default 0 Irregular.rhp2ReadResponse
+/-- history: the decoder BEFORE fix 3d18561 (`make([]byte, dataLen)` from the wire) panics on a
+16-byte input — `c10_decode_total` could not hold for it. -/
+theorem c10_rhp2_readresponse_old_panics :
+    Sch.guarded Env.default Irregular.rhp2ReadResponseOld = false ∧
+    dec Env.default 0 Irregular.rhp2ReadResponseOld
       [0,0,0,0,0,0,0,0, 0,0,0,0,0,0,0,128] = .error .panic := ⟨by decide, rfl⟩
 
-/-- **refuted for rhp/v3 `RPCExecuteProgramRequest`** (40-byte witness: a contract id and
-an instruction count of 2^60): `make([]Instruction, n)` panics before anything is read.
-Replayed on Go as `c10-decode-panic:rhp3.RPCExecuteProgramRequest`. -/
-theorem c10_rhp3_executeprogram_panics :
-    Sch.guarded Env.default Irregular.rhp3ExecuteProgramRequest = false ∧
-    dec Env.default 0 Irregular.rhp3ExecuteProgramRequest
+/-- history: the decoder BEFORE fix 1d18dfd (`make([]Instruction, n)` from the wire) panics on
+a 40-byte input. -/
+theorem c10_rhp3_executeprogram_old_panics :
+    Sch.guarded Env.default Irregular.rhp3ExecuteProgramRequestOld = false ∧
+    dec Env.default 0 Irregular.rhp3ExecuteProgramRequestOld
       (List.replicate 32 0 ++ [0,0,0,0,0,0,0,16]) = .error .panic := ⟨by decide, rfl⟩
 
 /-- the guard the model's `bytes`/`slice` assume (`n > remaining allowance → error`) is the
@@ -94,6 +102,19 @@ theorem tie_prefix_guards : Gen.prefixGuards = [
     ("Decoder.ReadBytes", "n > uint64(d.lr.N)"),
     ("DecodeSlice", "n > uint64(d.lr.N)"),
     ("DecodeSliceFn", "n > uint64(d.lr.N)")] := rfl
+
+/-- every `make` with a run-time length inside a decoder body, reviewed: the outline's are
+sums of lengths of slices already decoded under the guard; the policy's is a `uint8`
+(≤ 255 per node, depth ≤ 32); the multiproof's are ≤ 63 per element and
+`multiproofSize` of the decoded transactions. In particular the three rhp decoders fixed
+in 3d18561 / 1d18dfd (`RPCReadResponse`, `RPCExecuteProgramRequest/Response`) no longer
+allocate from a wire length: a regression re-appears in this list. -/
+theorem tie_decoder_makes : Gen.decoderMakes = [
+    ("Gateway_V2BlockOutline", "make([]uint8, len(txns)+len(v2txns)+len(hashes))"),
+    ("Gateway_V2BlockOutline", "make([]OutlineTransaction, len(kinds))"),
+    ("Types_SpendPolicy", "make([]SpendPolicy, d.ReadUint8())"),
+    ("Types_V2TransactionsMultiproof", "make([]Hash256, bits.Len64(l.LeafIndex^numLeaves)-1)"),
+    ("Types_V2TransactionsMultiproof", "make([]Hash256, multiproofSize(*txns))")] := rfl
 
 /-! ### allocation -/
 
@@ -263,6 +284,38 @@ theorem alloc_bounds {E : Env} (hE : EnvOK E) (k : Nat) (s : Sch)
     · refine ⟨by omega, ?_⟩
       intro v rest h; cases h
   | uslice s _ => simp [Sch.guarded] at hg
+  | aslice s ih =>
+    simp only [Sch.wf, Bool.and_eq_true, decide_eq_true_eq] at hwf
+    simp only [Sch.guarded] at hg
+    have hok : ∀ bs v r, decG E false k s bs = .ok (v, r) →
+        ∃ cs, bs = cs ++ r ∧ 1 ≤ cs.length ∧ allocOf E k s bs ≤ s.depth E * cs.length := by
+      intro bs v r h
+      obtain ⟨cs, hb, hm, ha⟩ := (ih hwf.1 hg bs).2 v r h
+      exact ⟨cs, hb, by omega, ha⟩
+    have herr : ∀ bs, allocOf E k s bs ≤ s.depth E * (bs.length + k) := fun bs => (ih hwf.1 hg bs).1
+    simp only [allocOf, Sch.depth, dec, decG]
+    split
+    · rename_i n r1 h1
+      obtain ⟨hb, hn⟩ := readU64_ok h1
+      have e1 : bs.length = 8 + r1.length := by rw [hb]; simp [u64le_length]
+      obtain ⟨rA, rB⟩ := allocRep_bounds (k := k) hok herr n r1
+      constructor
+      · have : (s.depth E + 1) * (r1.length + k) ≤ (s.depth E + 1) * (bs.length + k) :=
+          Nat.mul_le_mul_left _ (by omega)
+        omega
+      · intro v rest h
+        simp only [okList] at h
+        split at h
+        · rename_i vs r2 h2
+          injection h with h; injection h with e1 e2; subst e2
+          obtain ⟨cs, hcs, ha⟩ := rB _ _ h2
+          refine ⟨u64le n ++ cs, by rw [hb, hcs]; simp, by simp [Sch.minLen, u64le_length], ?_⟩
+          have : (s.depth E + 1) * cs.length ≤ (s.depth E + 1) * (u64le n ++ cs).length :=
+            Nat.mul_le_mul_left _ (by simp)
+          omega
+        · cases h
+    · refine ⟨by omega, ?_⟩
+      intro v rest h; cases h
   | ext n =>
     have ok := hE n
     refine ⟨ok.alloc_err hg k bs, ?_⟩
@@ -287,5 +340,42 @@ theorem c10_decode_alloc_bounded {E : Env} (hE : EnvOK E) (k : Nat) (s : Sch)
 
 example : allocOf Env.default 0 C11.exS (enc Env.default C11.exS C11.exV) = 3 := by decide
 example : Sch.depth Env.default C11.exS = 2 := by decide
+
+/-- **rhp/v2 `RPCReadResponse`** (mirrored model of the fixed decoder): total, and the
+allocation is at most twice the input (signature copy + data, each bounded by what
+arrives) whatever length the peer announces. -/
+theorem c10_rhp2_readresponse_total {E : Env} (hE : EnvOK E) (k : Nat) (bs : Bytes) :
+    dec E k Irregular.rhp2ReadResponse bs ≠ .error .panic ∧
+    allocOf E k Irregular.rhp2ReadResponse bs ≤ 1 * bs.length + 1 * k := by
+  have hgs : Sch.guarded E Irregular.rhp2ReadResponse = true := by
+    simp [Irregular.rhp2ReadResponse, Sch.seq, Sch.guarded, Atom.codec]
+  have hwf : Sch.wf E Irregular.rhp2ReadResponse = true := by
+    simp [Irregular.rhp2ReadResponse, Sch.seq, Sch.wf, Sch.minLen, Atom.codec]
+  have hd : Sch.depth E Irregular.rhp2ReadResponse = 1 := by
+    simp [Irregular.rhp2ReadResponse, Sch.seq, Sch.depth, Atom.codec]
+  have h := c10_decode_alloc_bounded hE k Irregular.rhp2ReadResponse hwf hgs bs
+  rw [hd] at h
+  exact ⟨c10_decode_total hE false k _ hgs bs, h⟩
+
+/-- the old witness (empty signature, `dataLen = 2^63`) is now an ordinary error -/
+example : dec Env.default 0 Irregular.rhp2ReadResponse
+    [0,0,0,0,0,0,0,0, 0,0,0,0,0,0,0,128] = .error .short := rfl
+
+/-- **rhp/v3 `RPCExecuteProgramRequest`** (mirrored model of the fixed decoder): total and
+linearly allocating, for any lawful model of the instruction codec. -/
+theorem c10_rhp3_executeprogramrequest_total {E : Env} (hE : EnvOK E)
+    (hg : (E.ext "Rhp3.Instruction").guarded = true) (hm : 1 ≤ (E.ext "Rhp3.Instruction").minLen)
+    (k : Nat) (bs : Bytes) :
+    dec E k Irregular.rhp3ExecuteProgramRequest bs ≠ .error .panic ∧
+    allocOf E k Irregular.rhp3ExecuteProgramRequest bs ≤
+      Irregular.rhp3ExecuteProgramRequest.depth E * bs.length + Irregular.rhp3ExecuteProgramRequest.depth E * k := by
+  have hgs : Sch.guarded E Irregular.rhp3ExecuteProgramRequest = true := by
+    simp [Irregular.rhp3ExecuteProgramRequest, Sch.seq, Sch.guarded, Atom.codec, hg]
+  have hwf : Sch.wf E Irregular.rhp3ExecuteProgramRequest = true := by
+    simp [Irregular.rhp3ExecuteProgramRequest, Sch.seq, Sch.wf, Sch.minLen, hm]
+  exact ⟨c10_decode_total hE false k _ hgs bs, c10_decode_alloc_bounded hE k _ hwf hgs bs⟩
+
+example : dec Env.default 0 Irregular.rhp3ExecuteProgramRequest
+    (List.replicate 32 0 ++ [0,0,0,0,0,0,0,16]) = .error .unsupported := rfl
 
 end C10D
